@@ -4,6 +4,7 @@
 package c16
 
 import (
+	"go.nanomsg.org/mangos/v3/protocol/pair"
 	"bytes"
 	"encoding/binary"
 	"fmt"
@@ -73,6 +74,7 @@ func init() {
 			{Name: "stream-every-length", Mode: "enum", Reset: kit.ResetGlobals, Body: func() { EveryLength(map[bool]int{false: 2200, true: 9000}[tier == "thorough"]) }, NeedCounters: []string{"every-length-written-exact", "every-length-received-exact"}},
 			{Name: "stream-long-protocol-headers", Mode: "enum", Reset: kit.ResetGlobals, Body: LongHeaders, NeedCounters: []string{"header-over-32-bytes-written-exact"}},
 			{Name: "one-publication-several-sub-contexts-each-exact", Mode: "enum", Reset: kit.ResetGlobals, Body: c06.SharedPublication, NeedCounters: []string{"three-or-more-receivers-each-exact"}},
+			{Name: "stream-idle-then-traffic", Mode: "enum", Reset: kit.ResetGlobals, Body: IdleThenTraffic, NeedCounters: []string{"traffic-after-an-idle-period"}},
 			{Name: "receive-limit-however-it-was-given", Mode: "enum", Reset: kit.ResetGlobals, Body: c19.MaxRecv, NeedCounters: []string{"limit-enforced", "in-limit-delivered", "limit-lifted"}},
 			{Name: "stream-limit-changed-after-listen", Mode: "enum", Reset: kit.ResetGlobals, Body: limitAfterListen, NeedCounters: []string{"delivered-at-new-limit"}},
 			{Name: "stream-ends-inside-the-frame-after-a-complete-message", Mode: "enum", Reset: kit.ResetGlobals, Body: truncatedAfterComplete, NeedCounters: []string{"ended-right-after-length-prefix", "ended-inside-payload"}},
@@ -92,6 +94,7 @@ func init() {
 			{Name: "frames-arrive-while-a-write-is-stalled", Mode: "enum", Reset: kit.ResetGlobals, Body: duplexStalled, NeedCounters: []string{"stalled-write-exact"}},
 			{Name: "conformant-peer-beside-truncated-or-stalled-handshakes", Mode: "enum", Reset: kit.ResetGlobals, Body: hsTruncated, NeedCounters: []string{"stalled-does-not-delay-others"}},
 			{Name: "handshake-aborted-then-conformant-peer", Mode: "enum", Reset: kit.ResetGlobals, Body: c13.TCPAborted},
+			{Name: "stream-idle-then-traffic", Mode: "enum", Reset: kit.ResetGlobals, Body: IdleThenTraffic, NeedCounters: []string{"traffic-after-an-idle-period"}},
 			{Name: "conformant-peers-behind-refused-handshakes", Mode: "enum", Reset: kit.ResetGlobals, Body: RefusedInARow, NeedCounters: []string{"three-good-peers-at-once-behind-a-refusal"}},
 			{Name: "two-connections-one-stalled-framing", Mode: "enum", Reset: kit.ResetGlobals, Body: stalledFraming, NeedCounters: []string{"stalled-stream-exact"}},
 		}
@@ -163,6 +166,75 @@ func openL(k *kinds.Kind, maxrx int, own bool) (*srv, mangos.Listener) {
 	v.x = &kinds.Sock{K: k, S: s}
 	v.x.Quiet()
 	return v, l
+}
+
+// IdleThenTraffic: a stream connection (accepted or dialed; tcp or IPC framing) completes its
+// handshake and then carries nothing for a while - a second, a minute, an hour of virtual time.
+// After the pause a message in each direction still goes through, framed as ever: whatever
+// deadlines the transport used around the handshake govern the handshake only.
+func IdleThenTraffic() {
+	pickScheme()
+	role := []string{"listener", "dialer"}[kit.ChooseFree(2)]
+	pause := []time.Duration{time.Second, 6 * time.Second, time.Minute, time.Hour}[kit.ChooseFree(4)]
+	s, err := pair.NewSocket()
+	if err != nil {
+		kit.Failf("setup", "NewSocket: %v", err)
+	}
+	attached := 0
+	s.SetPipeEventHook(func(ev mangos.PipeEvent, p mangos.Pipe) {
+		if ev == mangos.PipeEventAttached {
+			attached++
+		}
+	})
+	ep := net.VGet(addr)
+	var h *net.VConn
+	if role == "listener" {
+		if err := s.Listen(scheme + "://" + addr); err != nil {
+			kit.Failf("setup", "Listen: %s", kit.ErrName(err))
+		}
+		h = ep.Connect()
+	} else {
+		ep.HarnessListen(true)
+		if err := s.DialOptions(scheme+"://"+addr, map[string]interface{}{mangos.OptionDialAsynch: true}); err != nil {
+			kit.Failf("setup", "Dial: %s", kit.ErrName(err))
+		}
+		kit.Quiesce()
+		if len(ep.Dialed) == 0 {
+			kit.Failf("setup", "no connection was dialed")
+		}
+		h = ep.Dialed[0]
+	}
+	h.Feed(spHeader(s.Info().Peer))
+	kit.Quiesce()
+	if attached != 1 {
+		kit.Failf("setup", "%s %s: connection did not attach", scheme, role)
+	}
+	hs := len(h.Written())
+	for round := 0; round < 2; round++ {
+		kit.Sleep(pause)
+		kit.Quiesce()
+		body := fmt.Sprintf("after-%v-round-%d", pause, round)
+		sc := kit.Start("Send", func() (interface{}, error) { return nil, kit.SendBytes(s, []byte(body)) })
+		kit.Quiesce()
+		if !sc.Done() || sc.Err != nil {
+			kit.Failf("send-after-idle", "%s %s: Send after %v of silence: done=%v %s", scheme, role, pause, sc.Done(), kit.ErrName(sc.Err))
+		}
+		w := h.Written()[hs:]
+		if !bytes.Equal(w, frame([]byte(body))) {
+			kit.Failf("frame-after-idle-missing", "%s %s connection, %v after its handshake: a %d byte message was sent, the peer saw % x (closed by mangos: %v)", scheme, role, pause, len(body), w, h.ClosedByMangos())
+		}
+		hs = len(h.Written())
+		in := "in-" + body
+		h.Feed(frame([]byte(in)))
+		rc := kit.Start("Recv", func() (interface{}, error) { b, err := kit.Recv(s); return string(b), err })
+		kit.Quiesce()
+		if !rc.Done() || rc.Err != nil || rc.Val.(string) != in {
+			kit.Failf("recv-after-idle", "%s %s: message from the peer after %v of silence: done=%v %s %q", scheme, role, pause, rc.Done(), kit.ErrName(rc.Err), rc.Val)
+		}
+	}
+	kit.Count("traffic-after-an-idle-period")
+	kit.Observe("%s %s %v", scheme, role, pause)
+	kit.Must("Close", func() { _ = s.Close() })
 }
 
 // ListenerClosed: a listener is closed on its own (not its socket) while connections it accepted
